@@ -256,7 +256,9 @@ where
             Some((p, _)) => Ok((*p).clone()),
             None => match t!(self.refs.get(r.id)) {
                 XRef::Raw {pos, ..} => {
-                    let mut lexer = Lexer::with_offset(t!(self.backend.read(self.start_offset + pos ..)), self.start_offset + pos);
+                    // (the position comes from the file; with bytes before the header the sum may not fit)
+                    let pos = t!(self.start_offset.checked_add(pos).ok_or(PdfError::Invalid));
+                    let mut lexer = Lexer::with_offset(t!(self.backend.read(pos ..)), pos);
                     let p = t!(parse_indirect_object(&mut lexer, resolve, self.decoder.as_ref(), flags)).1;
                     Ok(p)
                 }
